@@ -152,3 +152,28 @@ func C2TrialFactor(n uint64) []uint64 {
 func C2IsPrime64(n uint64) bool {
 	return new(big.Int).SetUint64(n).ProbablyPrime(1)
 }
+
+// C2SpecResidueRule is the residue rule as written in the specification text
+// ("p mod 8 = 7 for g = 2; p mod 3 = 2 for g = 3; no extra condition for g = 4;
+// p mod 5 = 1 or 4 for g = 5; p mod 24 = 19 or 23 for g = 6; and p mod 7 = 3, 5
+// or 6 for g = 7"), evaluated with big.Int.Mod for a positive p of any size.
+// It says what CheckGP must answer for ANY positive p, prime or not; for primes
+// p = 3 mod 4 it coincides with Euler's criterion (C2SpecAcceptG).
+func C2SpecResidueRule(g int, p *big.Int) bool {
+	mod := func(k int64) int64 { return new(big.Int).Mod(p, big.NewInt(k)).Int64() }
+	switch g {
+	case 2:
+		return mod(8) == 7
+	case 3:
+		return mod(3) == 2
+	case 4:
+		return true
+	case 5:
+		return mod(5) == 1 || mod(5) == 4
+	case 6:
+		return mod(24) == 19 || mod(24) == 23
+	case 7:
+		return mod(7) == 3 || mod(7) == 5 || mod(7) == 6
+	}
+	return false
+}
